@@ -388,3 +388,216 @@ Proof.
   pose proof (range_nest _ _ _ _ _ H Hl') as (A & B). cbv zeta in A, B.
   pose proof (pow4_pos (30 - l) ltac:(destruct H as (_ & ? & _); lia)). lia.
 Qed.
+
+(** ** Children *)
+Lemma Children_unfold : forall c,
+  s2_CellID_Children c =
+  let lsb := wrap_u64 (s2_CellID_lsb c) in
+  let c0 := wrap_u64 (wrap_u64 (c - lsb) + go_shr lsb 2) in
+  let s := go_shr lsb 1 in
+  let c1 := wrap_u64 (c0 + s) in
+  let c2 := wrap_u64 (c1 + s) in
+  let c3 := wrap_u64 (c2 + s) in
+  [c0; c1; c2; c3].
+Proof. intros c. reflexivity. Qed.
+
+Definition child (c l q : Z) : Z := c - 4 ^ (30 - l) + 4 ^ (30 - (l + 1)) + q * (2 * 4 ^ (30 - (l + 1))).
+
+Lemma child_rep : forall c f l k q, rep c f l k -> l < 30 -> 0 <= q < 4 ->
+  rep (child c l q) f (l + 1) (4 * k + q).
+Proof.
+  intros c f l k q (Hf & Hl & Hk & E) Hl30 Hq. unfold child.
+  assert (Hb : 4 ^ (30 - l) = 4 * 4 ^ (30 - (l + 1))).
+  { replace (30 - l) with (30 - (l + 1) + 1) by lia. apply pow4_succ. lia. }
+  split; [assumption|]. split; [lia|]. split.
+  - rewrite pow4_succ by lia. lia.
+  - rewrite E, Hb. ring.
+Qed.
+
+Lemma Children_rep : forall c f l k, rep c f l k -> l < 30 ->
+  s2_CellID_Children c = [child c l 0; child c l 1; child c l 2; child c l 3].
+Proof.
+  intros c f l k H Hl30. rewrite Children_unfold. cbv zeta.
+  rewrite (lsb_rep _ _ _ _ H).
+  pose proof (child_rep c f l k 0 H Hl30 ltac:(lia)) as R0.
+  pose proof (child_rep c f l k 1 H Hl30 ltac:(lia)) as R1.
+  pose proof (child_rep c f l k 2 H Hl30 ltac:(lia)) as R2.
+  pose proof (child_rep c f l k 3 H Hl30 ltac:(lia)) as R3.
+  pose proof (rep_wrap _ _ _ _ R0) as W0. pose proof (rep_wrap _ _ _ _ R1) as W1.
+  pose proof (rep_wrap _ _ _ _ R2) as W2. pose proof (rep_wrap _ _ _ _ R3) as W3.
+  pose proof H as (Hf & Hl & Hk & E).
+  assert (Hb : 4 ^ (30 - l) = 4 * 4 ^ (30 - (l + 1))).
+  { replace (30 - l) with (30 - (l + 1) + 1) by lia. apply pow4_succ. lia. }
+  pose proof (pow4_pos (30 - (l + 1)) ltac:(lia)) as Hb4.
+  pose proof (pow4_le_2_60 l Hl) as Hble.
+  pose proof (rep_bounds _ _ _ _ H) as (H1 & H2 & H3).
+  assert (0 <= f * 2 ^ 61) by lia. assert ((f + 1) * 2 ^ 61 <= 6 * 2 ^ 61) by lia.
+  set (b := 4 ^ (30 - l)) in *. set (b4 := 4 ^ (30 - (l + 1))) in *.
+  rewrite (wrap_u64_small b) by (change (2 ^ 64) with (16 * 2 ^ 60); lia).
+  rewrite !go_shr_div by lia. change (2 ^ 2) with 4. change (2 ^ 1) with 2.
+  replace (b / 4) with b4 by (rewrite Hb; symmetry; rewrite Z.mul_comm; apply Z.div_mul; lia).
+  replace (b / 2) with (2 * b4) by (rewrite Hb; symmetry; replace (4 * b4) with (2 * b4 * 2) by ring; apply Z.div_mul; lia).
+  rewrite (wrap_u64_small (c - b)) by (change (2 ^ 64) with (8 * 2 ^ 61); lia).
+  unfold child in *. fold b b4 in W0, W1, W2, W3 |- *.
+  replace (c - b + b4 + 0 * (2 * b4)) with (c - b + b4) in * by ring.
+  rewrite W0.
+  replace (c - b + b4 + 2 * b4) with (c - b + b4 + 1 * (2 * b4)) by ring. rewrite W1.
+  replace (c - b + b4 + 1 * (2 * b4) + 2 * b4) with (c - b + b4 + 2 * (2 * b4)) by ring. rewrite W2.
+  replace (c - b + b4 + 2 * (2 * b4) + 2 * b4) with (c - b + b4 + 3 * (2 * b4)) by ring. rewrite W3.
+  reflexivity.
+Qed.
+
+(** [parent_child]: the four children are valid cells one level down whose parent is the cell,
+    strictly increasing, and their leaf ranges tile the cell's leaf range in order. *)
+Lemma parent_child : forall c f l k, rep c f l k -> l < 30 ->
+  exists c0 c1 c2 c3, s2_CellID_Children c = [c0; c1; c2; c3] /\
+    rep c0 f (l + 1) (4 * k) /\ rep c1 f (l + 1) (4 * k + 1) /\
+    rep c2 f (l + 1) (4 * k + 2) /\ rep c3 f (l + 1) (4 * k + 3) /\
+    s2_CellID_Parent c0 l = c /\ s2_CellID_Parent c1 l = c /\
+    s2_CellID_Parent c2 l = c /\ s2_CellID_Parent c3 l = c /\
+    c0 < c1 < c2 /\ c2 < c3 /\
+    s2_CellID_RangeMin c0 = s2_CellID_RangeMin c /\
+    s2_CellID_RangeMax c0 + 2 = s2_CellID_RangeMin c1 /\
+    s2_CellID_RangeMax c1 + 2 = s2_CellID_RangeMin c2 /\
+    s2_CellID_RangeMax c2 + 2 = s2_CellID_RangeMin c3 /\
+    s2_CellID_RangeMax c3 = s2_CellID_RangeMax c.
+Proof.
+  intros c f l k H Hl30.
+  exists (child c l 0), (child c l 1), (child c l 2), (child c l 3).
+  pose proof (child_rep c f l k 0 H Hl30 ltac:(lia)) as R0.
+  pose proof (child_rep c f l k 1 H Hl30 ltac:(lia)) as R1.
+  pose proof (child_rep c f l k 2 H Hl30 ltac:(lia)) as R2.
+  pose proof (child_rep c f l k 3 H Hl30 ltac:(lia)) as R3.
+  replace (4 * k + 0) with (4 * k) in R0 by lia.
+  pose proof H as (Hf & Hl & Hk & E).
+  assert (Hpar : forall q, 0 <= q < 4 -> s2_CellID_Parent (child c l q) l = c).
+  { intros q Hq. pose proof (child_rep c f l k q H Hl30 Hq) as Rq.
+    pose proof (Parent_rep _ _ _ _ l Rq ltac:(lia)) as HP.
+    replace (l + 1 - l) with 1 in HP by lia. change (4 ^ 1) with 4 in HP.
+    replace ((4 * k + q) / 4) with k in HP
+      by (apply (Z.div_unique (4 * k + q) 4 k q); [left|]; lia).
+    destruct HP as (_ & _ & _ & EP). rewrite EP, E. reflexivity. }
+  assert (Hb : 4 ^ (30 - l) = 4 * 4 ^ (30 - (l + 1))).
+  { replace (30 - l) with (30 - (l + 1) + 1) by lia. apply pow4_succ. lia. }
+  pose proof (pow4_pos (30 - (l + 1)) ltac:(lia)) as Hb4.
+  split; [apply (Children_rep _ _ _ _ H Hl30)|].
+  split; [exact R0|]. split; [exact R1|]. split; [exact R2|]. split; [exact R3|].
+  split; [apply Hpar; lia|]. split; [apply Hpar; lia|]. split; [apply Hpar; lia|]. split; [apply Hpar; lia|].
+  rewrite (RangeMin_rep _ _ _ _ R0), (RangeMin_rep _ _ _ _ R1), (RangeMin_rep _ _ _ _ R2), (RangeMin_rep _ _ _ _ R3).
+  rewrite (RangeMax_rep _ _ _ _ R0), (RangeMax_rep _ _ _ _ R1), (RangeMax_rep _ _ _ _ R2), (RangeMax_rep _ _ _ _ R3).
+  rewrite (RangeMin_rep _ _ _ _ H), (RangeMax_rep _ _ _ _ H).
+  unfold child. rewrite Hb. lia.
+Qed.
+
+(** ** laminar family: two valid cells intersect iff one contains the other *)
+Lemma laminar_le : forall a f l k b f' l' k', rep a f l k -> rep b f' l' k' -> l <= l' ->
+  (s2_CellID_Intersects a b = true <-> s2_CellID_Contains a b = true).
+Proof.
+  intros a f l k b f' l' k' H H' Hll.
+  assert (Hub : u64 b) by (unfold u64; pose proof (rep_u64 _ _ _ _ H'); change (2 ^ 64) with (8 * 2 ^ 61); lia).
+  rewrite (Intersects_spec _ _ _ _ _ _ _ _ H H'), (Contains_spec _ _ _ _ b H Hub).
+  pose proof (rep_odd_pow2 _ _ _ _ H) as Ea. pose proof (rep_odd_pow2 _ _ _ _ H') as Eb.
+  pose proof H as (Hf & Hl & Hk & _). pose proof H' as (Hf' & Hl' & Hk' & _).
+  rewrite <- pow4_pow2 in Ea, Eb by lia.
+  set (d := l' - l). assert (Hd : 0 <= d) by (unfold d; lia).
+  assert (Hbb : 4 ^ (30 - l) = 4 ^ d * 4 ^ (30 - l')) by (rewrite <- Z.pow_add_r by lia; f_equal; unfold d; lia).
+  pose proof (pow4_pos d Hd) as HD. pose proof (pow4_pos (30 - l') ltac:(lia)) as Hu.
+  set (Ma := f * 4 ^ l + k) in *. set (Mb := f' * 4 ^ l' + k') in *.
+  set (u := 4 ^ (30 - l')) in *. set (D := 4 ^ d) in *.
+  rewrite Hbb, Ea, Eb, Hbb.
+  (* a-range = (2*D*Ma*u, 2*D*(Ma+1)*u), b-range = (2*Mb*u, 2*(Mb+1)*u), exclusive *)
+  split.
+  - intros [A B].
+    assert (A' : Mb * u < (D * (Ma + 1)) * u) by lia.
+    assert (B' : (D * Ma) * u < (Mb + 1) * u) by lia.
+    apply Z.mul_lt_mono_pos_r in A'; [|lia]. apply Z.mul_lt_mono_pos_r in B'; [|lia].
+    assert (A'' : (Mb + 1) * u <= (D * (Ma + 1)) * u) by (apply Z.mul_le_mono_nonneg_r; lia).
+    assert (B'' : (D * Ma) * u <= Mb * u) by (apply Z.mul_le_mono_nonneg_r; lia).
+    lia.
+  - intros [A B]. lia.
+Qed.
+
+Lemma Intersects_sym : forall a f l k b f' l' k', rep a f l k -> rep b f' l' k' ->
+  s2_CellID_Intersects a b = s2_CellID_Intersects b a.
+Proof.
+  intros a f l k b f' l' k' H H'.
+  apply Bool.eq_true_iff_eq.
+  rewrite (Intersects_spec _ _ _ _ _ _ _ _ H H'), (Intersects_spec _ _ _ _ _ _ _ _ H' H). tauto.
+Qed.
+
+Lemma laminar : forall a f l k b f' l' k', rep a f l k -> rep b f' l' k' ->
+  (s2_CellID_Intersects a b = true <-> s2_CellID_Contains a b = true \/ s2_CellID_Contains b a = true).
+Proof.
+  intros a f l k b f' l' k' H H'.
+  assert (Hua : u64 a) by (unfold u64; pose proof (rep_u64 _ _ _ _ H); change (2 ^ 64) with (8 * 2 ^ 61); lia).
+  assert (Hub : u64 b) by (unfold u64; pose proof (rep_u64 _ _ _ _ H'); change (2 ^ 64) with (8 * 2 ^ 61); lia).
+  destruct (Z_le_gt_dec l l') as [Hle|Hgt].
+  - rewrite (laminar_le _ _ _ _ _ _ _ _ H H' Hle). split; [tauto|]. intros [?|Hc]; [assumption|].
+    (* b contains a with b deeper or equal: then the ranges intersect, hence a contains b *)
+    apply (laminar_le _ _ _ _ _ _ _ _ H H' Hle).
+    apply (Intersects_spec _ _ _ _ _ _ _ _ H H').
+    apply (Contains_spec _ _ _ _ a H' Hua) in Hc.
+    pose proof (pow4_pos (30 - l) ltac:(destruct H as (_ & ? & _); lia)).
+    pose proof (pow4_pos (30 - l') ltac:(destruct H' as (_ & ? & _); lia)). lia.
+  - rewrite (Intersects_sym _ _ _ _ _ _ _ _ H H').
+    rewrite (laminar_le _ _ _ _ _ _ _ _ H' H ltac:(lia)). split; [tauto|]. intros [Hc|?]; [|assumption].
+    apply (laminar_le _ _ _ _ _ _ _ _ H' H ltac:(lia)).
+    apply (Intersects_spec _ _ _ _ _ _ _ _ H' H).
+    apply (Contains_spec _ _ _ _ b H Hub) in Hc.
+    pose proof (pow4_pos (30 - l) ltac:(destruct H as (_ & ? & _); lia)).
+    pose proof (pow4_pos (30 - l') ltac:(destruct H' as (_ & ? & _); lia)). lia.
+Qed.
+
+(** Contains is the ancestor relation *)
+Lemma Contains_iff_ancestor : forall a f l k b f' l' k', rep a f l k -> rep b f' l' k' ->
+  (s2_CellID_Contains a b = true <-> l <= l' /\ s2_CellID_Parent b l = a).
+Proof.
+  intros a f l k b f' l' k' H H'.
+  assert (Hub : u64 b) by (unfold u64; pose proof (rep_u64 _ _ _ _ H'); change (2 ^ 64) with (8 * 2 ^ 61); lia).
+  pose proof H as (Hf & Hl & Hk & Ea). pose proof H' as (Hf' & Hl' & Hk' & Eb).
+  pose proof (pow4_pos (30 - l) ltac:(lia)) as Hba. pose proof (pow4_pos (30 - l') ltac:(lia)) as Hbb.
+  split.
+  - intros Hc. pose proof Hc as Hc0. apply (Contains_spec _ _ _ _ b H Hub) in Hc.
+    assert (Hll : l <= l').
+    { destruct (Z_le_gt_dec l l') as [?|Hgt]; [assumption|exfalso].
+      (* a strictly deeper than b yet a contains b: then b contains a too, impossible by sizes *)
+      assert (Hi : s2_CellID_Intersects b a = true).
+      { apply (Intersects_spec _ _ _ _ _ _ _ _ H' H). lia. }
+      apply (laminar_le _ _ _ _ _ _ _ _ H' H ltac:(lia)) in Hi.
+      assert (Hua : u64 a) by (unfold u64; pose proof (rep_u64 _ _ _ _ H); change (2 ^ 64) with (8 * 2 ^ 61); lia).
+      apply (Contains_spec _ _ _ _ a H' Hua) in Hi.
+      (* a's range inside b's and b inside a's range: with |a-range| < |b-range| *)
+      assert (Hlt : 4 ^ (30 - l) < 4 ^ (30 - l')) by (apply Z.pow_lt_mono_r; lia).
+      (* b in a-range and a in b-range; use the odd-multiple shapes *)
+      pose proof (rep_odd_pow2 _ _ _ _ H) as Oa. pose proof (rep_odd_pow2 _ _ _ _ H') as Ob.
+      rewrite <- pow4_pow2 in Oa, Ob by lia.
+      set (d := l - l') in *. assert (Hd : 0 < d) by (unfold d; lia).
+      assert (Hbb' : 4 ^ (30 - l') = 4 ^ d * 4 ^ (30 - l)) by (rewrite <- Z.pow_add_r by lia; f_equal; unfold d; lia).
+      assert (HD : 4 <= 4 ^ d) by (change 4 with (4 ^ 1) at 1; apply Z.pow_le_mono_r; lia).
+      set (Ma := f * 4 ^ l + k) in *. set (Mb := f' * 4 ^ l' + k') in *. set (u := 4 ^ (30 - l)) in *.
+      rewrite Oa, Ob, Hbb' in Hc. 
+      assert (X1 : (2 * Ma) * u < ((2 * Mb + 1) * 4 ^ d) * u) by lia.
+      assert (X2 : ((2 * Mb + 1) * 4 ^ d) * u < (2 * Ma + 2) * u) by lia.
+      apply Z.mul_lt_mono_pos_r in X1; [|lia]. apply Z.mul_lt_mono_pos_r in X2; [|lia].
+      (* (2Mb+1)*4^d is even and strictly between 2Ma and 2Ma+2 *)
+      assert (Hev : exists t, 4 ^ d = 2 * t).
+      { exists (2 * 4 ^ (d - 1)). replace d with (d - 1 + 1) at 1 by lia. rewrite pow4_succ by lia. ring. }
+      destruct Hev as [t Ht]. rewrite Ht in X1, X2. lia. }
+    split; [assumption|].
+    pose proof (Parent_rep _ _ _ _ l H' ltac:(lia)) as HP.
+    pose proof (range_nest _ _ _ _ l H' ltac:(lia)) as (A & B). cbv zeta in A, B.
+    set (p := s2_CellID_Parent b l) in *.
+    (* p and a are both level-l cells whose ranges contain b: equal *)
+    destruct HP as (_ & _ & Hkp & Ep).
+    assert (Hfp : f' = f /\ k' / 4 ^ (l' - l) = k).
+    { set (kp := k' / 4 ^ (l' - l)) in *.
+      change (2 ^ 61) with (2 * 2 ^ 60) in *. rewrite <- (pow4_split l Hl) in *.
+      set (B4 := 4 ^ l) in *. set (u := 4 ^ (30 - l)) in *.
+      assert (Y1 : (2 * (f * B4 + k)) * u < (2 * (f' * B4 + kp) + 2) * u) by lia.
+      assert (Y2 : (2 * (f' * B4 + kp)) * u < (2 * (f * B4 + k) + 2) * u) by lia.
+      apply Z.mul_lt_mono_pos_r in Y1; [|lia]. apply Z.mul_lt_mono_pos_r in Y2; [|lia].
+      assert (f * B4 + k = f' * B4 + kp) by lia.
+      assert (f = f') by nia. subst f'. split; [reflexivity|lia]. }
+    destruct Hfp as [-> Hkk]. rewrite Ep, Ea, Hkk. reflexivity.
+  - intros [Hll <-]. apply (Parent_contains _ _ _ _ _ H'). lia.
+Qed.
